@@ -252,6 +252,9 @@ BD_Shape<T>::Status::ascii_load(std::istream& s) {
   if (positive) {
     set_empty();
   }
+  else {
+    reset_empty();
+  }
 
   if (!get_field(s, sp_closed, positive)) {
     return false;
